@@ -94,14 +94,14 @@ def cases(tier, seed):
                         N2[p] = N1[p] + rng.choice((1, 2))
                     cs.append({'gen': 'neg', 'row': 'ttm-binop-shape-mismatch', 'op': op, 'M1': M1, 'N1': N1, 'M2': M2, 'N2': N2, 'cls': which})
     # kind mismatch
-    for op in ('add', 'sub', 'mul', 'div', 'kron', 'pow', 'dot', 'fast_matvec_swapped', 'matmul_tt_tt', 'amen_mv_swapped', 'amen_solve_swapped', 'bilinear_kinds', 't_on_tensor', 'mprod_on_ttm', 'cat_ttm'):
+    for op in ('add', 'sub', 'mul', 'div', 'kron', 'pow', 'dot', 'fast_matvec_swapped', 'matmul_tt_tt', 'amen_mv_swapped', 'amen_solve_swapped', 'bilinear_kinds', 't_on_tensor', 'mprod_on_ttm', 'cat_ttm', 'cat_ttm_single'):
         for first_ttm in (False, True):
             for rep in range(k):
                 d = rng.choice((1, 2, 3))
                 N = [rng.choice((2, 3)) for _ in range(d)]
                 cs.append({'gen': 'neg', 'row': 'kind-mismatch', 'op': op, 'N': N, 'first_ttm': first_ttm})
     # wrong-type second argument
-    for op in ('add', 'sub', 'mul', 'div', 'rdiv', 'kron', 'pow', 'matmul', 'dot', 'fast_matvec', 'bilinear', 'amen_solve', 'amen_mv', 'diag', 'permute', 'save', 'ctor', 'zeros', 'ones', 'qtt_to_tens'):
+    for op in ('add', 'sub', 'mul', 'div', 'rdiv', 'kron', 'pow', 'matmul', 'dot', 'fast_matvec', 'bilinear', 'amen_solve', 'amen_mv', 'diag', 'permute', 'save', 'ctor', 'zeros', 'ones', 'qtt_to_tens', 'cat_single', 'cat_member'):
         for bad in ('str', 'none', 'list', 'dense2', 'dict'):
             for ttm in (False, True):
                 cs.append({'gen': 'neg', 'row': 'wrong-type', 'op': op, 'bad': bad, 'ttm': ttm, 'N': [2, 3]})
@@ -114,7 +114,7 @@ def cases(tier, seed):
                 p = rng.randrange(d)
                 cs.append({'gen': 'neg', 'row': 'matmul-shape-mismatch', 'op': op, 'M': M, 'N': N, 'pos': p, 'delta': rng.choice((1, 2))})
     # axis / index / mode out of range or negative
-    for op in ('sum', 'sum_list', 'cat_dim', 'mprod_mode', 'set_core_k', 'getitem_int', 'apply_mask', 'dot_axis', 'permute_dims'):
+    for op in ('sum', 'sum_list', 'cat_dim', 'cat_dim_single', 'mprod_mode', 'set_core_k', 'getitem_int', 'apply_mask', 'dot_axis', 'permute_dims'):
         for d in (1, 2, 3):
             for bad in ('too-large', 'negative', 'way-too-large'):
                 for rep in range(max(1, k // 2)):
@@ -193,6 +193,7 @@ def build(case, g):
             't_on_tensor': (DOC, lambda: x.t()),
             'mprod_on_ttm': (DOC, lambda: A.mprod(torch.ones(2, N[0], dtype=torch.float64), 0)),
             'cat_ttm': (DOC, (lambda: tt.cat((A, A), 0)) if ft else (lambda: tt.cat((x, A), 0))),
+            'cat_ttm_single': (DOC, lambda: tt.cat((A,), 0) if ft else tt.cat([A], 0)),       # one-element argument lists go through the same validation
         }
         doc, f = table[op]
         return ('%s kinds first_ttm=%s N=%s' % (op, ft, N), doc, f, (x, A))
@@ -218,6 +219,7 @@ def build(case, g):
             'ctor': (DOC if bad in ('str', 'dict') else ANY, lambda: tt.TT(v) if bad != 'none' else (_ for _ in ()).throw(_Skip())),
             'zeros': (DOC if bad != 'list' else ANY, lambda: tt.zeros(v)), 'ones': (DOC if bad != 'list' else ANY, lambda: tt.ones(v)),
             'qtt_to_tens': (DOC if bad != 'list' else ANY, lambda: y.qtt_to_tens(v)),
+            'cat_single': (ANY, lambda: tt.cat((v,), 0)), 'cat_member': (ANY, lambda: tt.cat((y, v), 0)),
         }
         if op == 'ctor' and bad in ('none', 'list', 'dense2'):
             return None     # None / dense tensors are documented valid sources; a list of ints is covered by ctor-cores
@@ -269,6 +271,7 @@ def build(case, g):
         table = {
             'sum': (DOC, lambda: x.sum(k)), 'sum_list': (DOC, lambda: x.sum([0, k] if d > 1 else [k])),
             'cat_dim': (ANY, lambda: tt.cat((x, y), k)),
+            'cat_dim_single': (ANY, lambda: tt.cat((x,), k)),
             'mprod_mode': (ANY, lambda: x.mprod(torch.ones(2, N[k % d], dtype=torch.float64), k)),
             'set_core_k': (DOC, lambda: x.set_core(k, torch.ones(tuple(x.cores[k % d].shape), dtype=torch.float64))),
         }
